@@ -17,13 +17,18 @@ fn versions(lang: Lang) -> Vec<(&'static str, Vec<(&'static str, String)>)> {
     let unit_user = "#[typeshare]\npub struct UsesUnit { pub nothing: (), pub list: Vec<()> }\n";
     let no_unit = "#[typeshare]\npub struct UsesUnit { pub nothing: u32, pub list: Vec<u8> }\n";
     let _ = lang;
+    // order matters: the quick tier takes the first five
     vec![
         ("V0-base", vec![("ws/x/src/lib.rs", format!("{a}\n{b}"))]),
         ("V1-type-added", vec![("ws/x/src/lib.rs", format!("{a}\n{b}\n{c}"))]),
-        ("V2-renamed-and-changed", vec![("ws/x/src/lib.rs", format!("{a}\n{b_renamed}"))]),
         ("V3-moved-to-other-crate", vec![("ws/x/src/lib.rs", a.to_string()), ("ws/y/src/lib.rs", format!("use x::Alpha;\n{b}"))]),
+        // only the alphabetically later crate differs from V3 (the earlier crate's file is already up to date)
+        ("V7-later-crate-changed", vec![("ws/x/src/lib.rs", a.to_string()), ("ws/y/src/lib.rs", format!("use x::Alpha;\n{b_renamed}\n{unit_user}"))]),
         ("V4-uses-unit", vec![("ws/x/src/lib.rs", format!("{a}\n{unit_user}"))]),
+        ("V2-renamed-and-changed", vec![("ws/x/src/lib.rs", format!("{a}\n{b_renamed}"))]),
         ("V5-unit-removed", vec![("ws/x/src/lib.rs", format!("{a}\n{no_unit}"))]),
+        // only the earlier crate differs from V3
+        ("V8-earlier-crate-changed", vec![("ws/x/src/lib.rs", format!("{a}\n{c}")), ("ws/y/src/lib.rs", format!("use x::Alpha;\n{b}"))]),
         ("V6-nothing-annotated", vec![("ws/x/src/lib.rs", "pub struct Plain { pub a: u32 }\n".to_string())]),
     ]
 }
@@ -191,7 +196,7 @@ pub fn run(args: &[String]) -> i32 {
     }
     let thorough = rep.thorough();
     let graphs: Vec<(Lang, bool, usize)> = if thorough {
-        ALL_LANGS.iter().flat_map(|l| [(*l, false, 7), (*l, true, 7)]).collect()
+        ALL_LANGS.iter().flat_map(|l| [(*l, false, 9), (*l, true, 9)]).collect()
     } else {
         vec![(Lang::Swift, true, 5), (Lang::Swift, false, 5), (Lang::TypeScript, true, 5), (Lang::TypeScript, false, 5), (Lang::Kotlin, true, 5)]
     };
